@@ -40,6 +40,7 @@ INVARIANTS
   NoFailure
   FoldAgrees
   HostOnlyDuringSetup
+  NoPropagation
   RootIsReadOnly
   OldRootUnreachable
   OnlyConfiguredNames
@@ -155,7 +156,7 @@ def flags(a, prefix):
     return sorted(x[len(prefix):] if x.startswith(prefix) else x for x in a.split("|"))
 
 
-def parse_trace(text, root, srcdir, lockdir):
+def parse_trace(text, root, srcdir, lockdir, sharedir=None):
     """events of the mount block of one launch (everything before execve, minus the work-dir chdir)"""
     ev, done, failed_parse = [], False, []
 
@@ -169,8 +170,8 @@ def parse_trace(text, root, srcdir, lockdir):
         return "rel", [c for c in p.split("/") if c]
 
     def src(p):
-        for d in (srcdir, lockdir):
-            if p.startswith(d + "/"):
+        for d in (srcdir, lockdir, sharedir):
+            if d and p.startswith(d + "/"):
                 return p[len(d) + 1:]
         return p
 
@@ -256,7 +257,7 @@ def run_driver(ctx, cases, tag, strace):
             m = pat.search(txt)
             if m:
                 texts[int(m.group(1))] = txt
-    left = [x for x in os.listdir(work) if x != "locked"]
+    left = [x for x in os.listdir(work) if x not in ("locked", "shared")]
     if left:
         ctx.note("driver left %d case directories behind" % len(left))
     return obs, texts
@@ -271,8 +272,9 @@ def build_traces(ctx, fobs, texts):
         if o is None:
             continue
         ev, done = parse_trace(texts[cid], "%s/c%d/root" % (work, cid), "%s/c%d/src" % (work, cid),
-                               "%s/locked/c%d" % (work, cid))
-        traces.append(dict(case=o["case"], srcfl=o["srcfl"], lockfl=o["lockfl"], done=done, ev=ev))
+                               "%s/locked/c%d" % (work, cid), "%s/shared/c%d" % (work, cid))
+        traces.append(dict(case=o["case"], srcfl=o["srcfl"], lockfl=o["lockfl"], sharefl=o["sharefl"],
+                           srcshared=o["srcshared"], done=done, ev=ev))
     return traces
 
 
@@ -285,6 +287,8 @@ def key_of(b, o):
         k = "extra-visible:%s:/%s" % (c["impl"], "/".join(b["p"][:1]))
     if b["w"] == "host-canary-reachable":
         k = "host-canary-reachable:%s:%s" % (c["impl"], "old_root" if b["k"].startswith("/old_root") else "direct")
+    if b["w"] == "receives-propagation":
+        k = "receives-propagation:%s:%s" % (c["impl"], b["k"])
     if b["w"] == "launch-failed":
         k = "launch-failed:%s:%s:%s" % (c["impl"], b["k"], ",".join(sorted(set(c["kinds"]))))
     return k
@@ -419,6 +423,7 @@ def run_body(ctx, bg):
     ctx.cov["sandboxes"] = dict(namespace_runner=len(fobs), container=len(cobs))
     ctx.cov["kernel_truth_mismatches"] = len(model)
     ctx.cov["enumerated_configurations"] = total
+    ctx.cov["host_mounts_during_sandbox_lifetime"] = sum(o.get("dynmounted", 0) for o in obs)
     for o in (fobs[:1] + cobs[:1]):
         ctx.sample(dict(case=o["case"], started=o["started"], tree=o["tree"][:12], tests=[dict(p=x["p"], k=x["k"], ro=x["ro"]) for x in o["tests"]],
                         masks=o["masks"][:4], mi=o["mi"][:6], oldroot=o["oldroot"], canary=o["canary"]))
@@ -428,6 +433,7 @@ def run_body(ctx, bg):
         "kernel: a bind remount with MS_RDONLY makes the mount read-only for every modification the probe tries; cross-checked per sandbox (statvfs flag, mountinfo, behaviour must agree, else inconclusive)",
         "path resolution model: the last mount whose mount point is a prefix of the path serves it (no moves, no partial unmounts); validated against /proc/<pid>/mountinfo of every sandbox",
         "/proc/<pid>/mountinfo lists mounts in creation order (kernel >= 6.8, here 6.18); on older kernels the table comparison would show up as DRIFT / inconclusive, never as a violation",
+        "propagation: the driver runs in its own mount namespace (unshare -m --propagation private) and makes one tmpfs shared; sources of the 'bdros' kind live there and the driver mounts a tmpfs with a marker on <source>/dyn from the sync callback (sandbox set up, program about to be exec'd); all other host mounts are private here, so only that kind can show propagation",
         "the sandboxed program has no capabilities (runner/unshare and the container both drop them), so remount attempts are expected to fail with EPERM",
         "a launch that fails inside the mount block on a table the model can build is counted as a breach (the configured mounts are not provided); failures elsewhere are inconclusive",
         "container: link/mask/devnull options explored as 4 combinations (all 8 in the model); network and ipc namespaces are not unshared by the driver",
